@@ -280,3 +280,41 @@ M('c07-wsgi-exhaust-stops-on-short-read', 'C07', 'R3', W, _EXHAUST_LOOP,
   "        while True:\n            chunk = self.read(chunk_size)\n            if len(chunk) < chunk_size:\n                break\n")
 # one read of "everything that is left"
 M('c07-wsgi-exhaust-single-read', 'C07', 'R3', W, _EXHAUST_LOOP, "        self.read(self._bytes_remaining)\n")
+
+# ------------------------------------------------------------------ wave 5: who may force the budget to 0 (R3)
+_READ_BODY = "        return self._read(size, self.stream.read)\n"
+_DEDUCT = "        self._bytes_remaining -= len(result)\n        return result\n"
+# (s5-c07-1) "report EOF for truncated requests": read(0) returns b'' as well and flips the stream to EOF with the body unread
+M('c07-wsgi-read-eof-on-empty-result', 'C07', 'R3', W, _READ_BODY,
+  "        data = self._read(size, self.stream.read)\n\n        if not data:\n            self._bytes_remaining = 0\n\n        return data\n")
+M('c07-wsgi-read-eof-unconditional', 'C07', 'R3', W, _READ_BODY,
+  "        data = self._read(size, self.stream.read)\n        self._bytes_remaining = 0\n        return data\n")
+M('c07-wsgi-readline-eof-on-empty-line', 'C07', 'R3', W, "        return self._read(limit, self.stream.readline)\n",
+  "        line = self._read(limit, self.stream.readline)\n        if len(line) == 0:\n            self._bytes_remaining = 0\n        return line\n")
+# (s3-c07-3) the same reset inside the clamping helper
+M('c07-wsgi-gate-eof-on-empty-result', 'C07', 'R3', W, _DEDUCT,
+  "        self._bytes_remaining -= len(result)\n\n        if not result:\n            self._bytes_remaining = 0\n\n        return result\n")
+# the reset behind a helper method (looked through at the call site)
+M('c07-wsgi-read-eof-helper-on-empty-result', 'C07', 'R3', W, _READ_BODY,
+  "        data = self._read(size, self.stream.read)\n        if not data:\n            self._mark_eof()\n        return data\n\n"
+  "    def _mark_eof(self) -> None:\n        self._bytes_remaining = 0\n")
+# a write to the budget that is no read at all
+M('c07-wsgi-discard-marks-eof', 'C07', 'R3', W, _BEFORE_READABLE,
+  "    def discard(self) -> None:\n        self._bytes_remaining = 0\n\n" + _BEFORE_READABLE)
+# exhaust(0): read(0) returns b'', the loop ends, the reset reports EOF with the body unread
+M('c07-wsgi-exhaust-marks-eof-after-loop', 'C07', 'R3', W, _EXHAUST_LOOP, _EXHAUST_LOOP + "\n        self._bytes_remaining = 0\n")
+
+# ------------------------------------------------------------------ wave 5: whatever drains the ASGI stream leaves nothing behind (R4)
+_EXHAUST_PROLOGUE = "        self._pos += len(self._buffer)\n        self._buffer = b''\n\n        while"
+_READALL_EOF = "        if self.eof:\n            return b''\n\n        if self._buffer:\n            next_chunk = self._buffer\n            self._buffer = b''\n            chunks"
+# (s5-c07-2) "nothing left to receive" is not "nothing left": buffered data is neither discarded nor counted
+M('c07-asgi-exhaust-early-return-on-zero-budget', 'C07', 'R4', A, _EXHAUST_PROLOGUE,
+  "        if self._bytes_remaining == 0:\n            return\n\n" + _EXHAUST_PROLOGUE)
+M('c07-asgi-exhaust-early-return-on-empty-buffer', 'C07', 'R4', A, _EXHAUST_PROLOGUE,
+  "        if not self._buffer:\n            return\n\n" + _EXHAUST_PROLOGUE)
+M('c07-asgi-readall-early-return-on-zero-budget', 'C07', 'R4', A, _READALL_EOF,
+  _READALL_EOF.replace("if self.eof:", "if self._bytes_remaining == 0:"))
+M('c07-asgi-iter-early-return-on-zero-budget', 'C07', 'R4', A,
+  "        if self.eof:\n            return\n\n        if self._iteration_started", "        if not self._bytes_remaining:\n            return\n\n        if self._iteration_started")
+M('c07-asgi-exhaust-keeps-buffer', 'C07', 'R4', A, _EXHAUST_PROLOGUE, "        while")
+M('c07-asgi-exhaust-drops-buffer-without-position', 'C07', 'R4', A, _EXHAUST_PROLOGUE, "        self._buffer = b''\n\n        while")
